@@ -60,6 +60,12 @@ class I2CElement(MemoryElement):
                     elif self.elements['version'] == 1:
                         self.datav0 = data
                         self.mem_handler.read(self, 16, 5)
+                    else:
+                        # Unknown layout, there is no checksum to verify
+                        self.valid = False
+                        if self._update_finished_cb:
+                            self._update_finished_cb(self)
+                            self._update_finished_cb = None
                 else:
                     self.valid = False
                     if self._update_finished_cb:
